@@ -289,3 +289,28 @@ PROPS["C11"] = dict(PROPS["C01"], lean=["Gengo.Props.C11"],
 
 # properties not claimed, with the reason (kept current by hand)
 NOT_APPLICABLE = {}
+
+PROPS["C05"] = {
+    "variants": ["v1", "v2"],
+    "lean": ["Gengo.Props.C05"],
+    "level": "proof",
+    "level_text": "Model of endLineToCommentGroup (comment groups indexed by last line, later groups overwrite, trailing groups left out), "
+                  "docComment/priorCommentLines and priorDetachedComment/addCommentsToType. Kernel-checked for every list of comment groups "
+                  "and every declaration line: the delivered doc lines are those of a non-trailing group of the file that ends on the line "
+                  "directly above, unmodified; if exactly one such group exists it is the one delivered; with no such group the delivery is "
+                  "the empty comment; a trailing group is never delivered; the second-closest lines come from a non-trailing group ending two "
+                  "lines above the doc block's first line (or above the declaration when it has no doc block). PARTIAL: the model places the "
+                  "second-closest block by line arithmetic, as the code does; that the line in between is blank is not implied (known finding "
+                  "F6). go/parser's grouping of comments and CommentGroup.Text() are external facts. The real loaders are compared with "
+                  "the model on generated layouts, and an oracle compares every delivery with the block the layout generator placed there.",
+    "level_note": "Trusted: Lean kernel; go/parser (comment groups, positions, Text()) and go/format as sources of facts; the source-text scan "
+                  "that decides 'code before the comment on its line'; the model (validated by correspondence on every declaration of every "
+                  "generated layout); the generator's bookkeeping of intent.",
+    "rule": "gofmt-stable one-package layouts of 1..3 files (types.go, more.go, doc.go): single and grouped type/var/const declarations, "
+            "structs with named, multi-name and embedded fields, interfaces with methods, functions with comments inside the body, "
+            "methods; per declaration an optional block one blank line above, an optional doc block (// lines incl. empty ones and tag "
+            "lines, /* */ one-line and multi-line), an optional trailing comment (also after an opening brace or parenthesis), adjacent or "
+            "blank-separated declarations, file headers, dangling comments at the end of bodies and files; loaded by v1 (GOPATH mode AddDir) "
+            "and v2 (scratch module). Distinct = distinct line set.",
+    "assumptions": ["sources are gofmt-formatted (the property's quantifier)", "nested anonymous structs are not generated (their members are shared between identically spelled types)"],
+}
